@@ -12,7 +12,8 @@ def prove(ctx, spec):
         except Exception as e:  # extractor failure = broken tie
             failed.append("extractor: %r" % (e,))
     mods = spec["lean_modules"]
-    ok, out = lake_build(ctx, mods + ["dawgsmodel"])
+    exes = sorted({model_exe(su[k]) for su in spec["suites"] for k in ("model_suite", "monitor_suite") if su.get(k)})
+    ok, out = lake_build(ctx, mods + exes)
     theorems = spec["theorems"]
     axioms = {}
     if not ok:
@@ -49,6 +50,27 @@ def with_corpus(ctx, suite, gen_ops_path):
     return n
 
 
+def model_lines(ctx, suite, ops, impl, tag):
+    """Feed the model driver: the op lines, or (suite['model_input']) a line derived from op + impl answer."""
+    if not suite.get("model_suite"):
+        return []
+    mi = suite.get("model_input")
+    lines = [(o if (o.startswith("#") or not mi) else mi(o, r)) for o, r in zip(ops, impl)]
+    p = ctx.path("%s_%s.min" % (suite["name"], tag))
+    open(p, "w").write("\n".join(lines) + "\n")
+    mo = ctx.path("%s_%s.model" % (suite["name"], tag))
+    if not run_model(ctx, suite["model_suite"], p, mo):
+        raise RuntimeError("model driver failed")
+    return read_lines(mo)
+
+
+def views(suite, impl, model):
+    iv, mv = suite.get("impl_view"), suite.get("model_view")
+    vi = [l if (l == "#" or not iv) else iv(l) for l in impl]
+    vm = [l if (l == "#" or not mv) else mv(l) for l in model]
+    return vi, vm
+
+
 def exec_case(ctx, suite, ops, tag="t"):
     """Run a list of op lines through impl, model and monitor. Returns (impl, model, mon)."""
     p = ctx.path("%s_%s.ops" % (suite["name"], tag))
@@ -56,16 +78,15 @@ def exec_case(ctx, suite, ops, tag="t"):
     io = ctx.path("%s_%s.impl" % (suite["name"], tag))
     rc, out = harness(ctx, suite["name"], "run", ["-ops", p, "-out", io], timeout=suite.get("case_timeout", 120))
     impl = read_lines(io) if rc == 0 else ["harness-crash"] * len(ops)
-    model = []
-    if suite.get("model_suite"):
-        mo = ctx.path("%s_%s.model" % (suite["name"], tag))
-        run_model(ctx, suite["model_suite"], p, mo)
-        model = read_lines(mo)
-    mon = run_monitor(ctx, suite, ops, impl, tag)
+    model = model_lines(ctx, suite, ops, impl, tag)
+    mon = run_monitor(ctx, suite, ops, impl, tag, model)
     return impl, model, mon
 
 
-def run_monitor(ctx, suite, ops, impl, tag):
+def run_monitor(ctx, suite, ops, impl, tag, model=None):
+    if suite.get("judge"):
+        model = model or [""] * len(ops)
+        return [("#" if o.startswith("#") else suite["judge"](o, r, m)) for o, r, m in zip(ops, impl, model)]
     if not suite.get("monitor_suite"):
         return []
     mp = ctx.path("%s_%s.monin" % (suite["name"], tag))
@@ -114,13 +135,10 @@ def correspond(ctx, spec, suite, stats):
         stats[k] = stats.get(k, 0) + v
     ops = read_lines(ops_p)
     impl = read_lines(impl_p)
-    model = []
-    if suite.get("model_suite"):
-        if not run_model(ctx, suite["model_suite"], ops_p, model_p):
-            raise RuntimeError("model driver failed")
-        model = read_lines(model_p)
-    mon = run_monitor(ctx, suite, ops, impl, "all")
-    outs = [impl] + ([model] if model else []) + ([mon] if mon else [])
+    model = model_lines(ctx, suite, ops, impl, "all")
+    mon = run_monitor(ctx, suite, ops, impl, "all", model)
+    vimpl, vmodel = views(suite, impl, model)
+    outs = [impl] + ([model] if model else []) + ([mon] if mon else []) + ([vimpl, vmodel] if model else [])
     cases = split_cases(ops, *outs)
     res = {"cases": len(cases), "disagreements": [], "rejects": [], "nontrivial": set(), "samples": [], "panics": []}
     for c in cases:
@@ -129,8 +147,9 @@ def correspond(ctx, spec, suite, stats):
         cm = c["outs"][idx] if model else None
         if model: idx += 1
         cmon = c["outs"][idx] if mon else None
-        if model and ci != cm:
-            k = next(i for i in range(len(ci)) if ci[i] != cm[i])
+        if model and c["outs"][-2] != c["outs"][-1]:
+            vi, vm = c["outs"][-2], c["outs"][-1]
+            k = next(i for i in range(len(vi)) if vi[i] != vm[i])
             res["disagreements"].append({"case": c, "line": k})
         if cmon:
             fr = first_reject(cmon)
@@ -212,7 +231,8 @@ def run_property(spec, tier, seed, replay=None):
                 report_finding(ctx, key, "implementation panics", {"kind": "input", "suite": suite["name"], "ops": small, "impl": impl, "minimised": True})
             if res["disagreements"]:
                 d = min(res["disagreements"], key=lambda d: len(d["case"]["ops"]))
-                small = shrink_case(ctx, suite, d["case"]["ops"], lambda impl, model, mon: impl != model, kp)
+                differs = lambda impl, model, mon: (lambda v: v[0] != v[1])(views(suite, impl, model))
+                small = shrink_case(ctx, suite, d["case"]["ops"], differs, kp)
                 impl, model, mon = exec_case(ctx, suite, small, "final")
                 tie_broken.append({"suite": suite["name"], "ops": small, "impl": impl, "model": model, "monitor": mon,
                                    "count": len(res["disagreements"])})
@@ -282,6 +302,7 @@ def do_replay(ctx, spec, replay):
     impl, model, mon = exec_case(ctx, suite, ops, "replay")
     for i, o in enumerate(ops):
         print("%-40s impl=%-30s model=%-30s mon=%s" % (o, impl[i] if i < len(impl) else "", model[i] if i < len(model) else "-", mon[i] if i < len(mon) else "-"))
-    bad = (model and impl != model) or first_reject(mon) or any(l.startswith("panic ") for l in impl)
+    vi, vm = views(suite, impl, model)
+    bad = (model and vi != vm) or first_reject(mon) or any(l.startswith("panic ") for l in impl)
     print("REPLAY: %s" % ("still fails" if bad else "passes now"))
     return 1 if bad else 0
